@@ -64,8 +64,12 @@ CHECKS = {
                  "with/without acceleration) are executed on every scene of the deviation-2 lattice (all 100 ordered type pairs) "
                  "whose truth is certified by construction: gap >= delta by two parallel supporting planes, or a common point at "
                  "depth >= delta in both shapes (delta = 1e-3*L). ~4.3e5 judged scenes, ~2.4e6 test executions; scenes in the "
-                 "grazing band are generated but not judged."),
-        "design_ref": "DESIGN.md 5 C02",
+                 "grazing band are generated but not judged. Lattice-polytope family (exact ties by construction): EVERY non-degenerate "
+                 "tetrahedron with vertices in {-1,0,1}^3 (14632; as a vertex hull and as a mesh, seed-selected vertex order, thorough all 24) "
+                 "against 4 partner polytopes (two boxes, two tetrahedra) at 5 (thorough 10) dyadic centres, both argument orders, all five "
+                 "generic tests; truth = witness point at depth >= delta in both polytopes from the facet half-spaces, or a separating "
+                 "axis (facet normals and edge-edge cross products) with gap >= delta."),
+        "design_ref": "DESIGN.md 5 C02, 8.9",
         "note": "Trusted: reference model; known finding KF-C02-mpr-coplanar-flat is matched by exact descriptor only.",
         "technique": "bounded-exhaustive scene-lattice exploration of the real boolean tests vs constructed ground truth",
     },
